@@ -96,9 +96,9 @@ struct World {
         int doc2 = mk(DOC, 0, nullptr, nullptr); d.n[doc2].doc = doc2; bind(doc2, d2);
         int z = mk(EL, doc2, "p:z", nullptr); { RNode& Z = d.n[z]; Z.nsAware = true; Z.ns = "urn:z"; Z.prefix = "p"; Z.local = "z"; }
         bind(z, d2->createElementNS(X16("urn:z"), X16("p:z")));
-        (void)y; (void)c; (void)k; (void)b;
+        (void)c; (void)k; (void)b;
         auto link = [&](int p, int ch) { h[p]->appendChild(h[ch]); d.n[p].kids.push_back(ch); d.n[ch].parent = p; };
-        link(doc, r); link(r, a); link(r, x); link(f, e); link(doc2, z);
+        link(doc, r); link(r, a); link(r, x); link(f, e); link(e, y); link(doc2, z);   // 'y' is a leaf that is a FIRST child (x is not)
     }
 };
 
